@@ -737,7 +737,7 @@ def run(ctx) -> None:
     ctx.allow_axioms([])
     quick = ctx.tier == "quick"
     exprs, metas, bad = [], [], []
-    total = judged = gc_gave_up = abandoned = 0
+    total = judged = gc_gave_up = abandoned = adopt_refused = 0
     for ti, txns in enumerate(TXSETS):
         if quick and ti == 4:
             continue                                # (append + adopt together: thorough tier)
@@ -771,6 +771,7 @@ def run(ctx) -> None:
             in_proviso = "end" in w and w["end"] - w["start"] < out.get("grace", GRACE)
             judged += 1 if in_proviso else 0
             gc_gave_up += 1 if any(st != "ok" and n in ("G", "H") for n, (st, _d) in out["outcomes"].items()) else 0
+            adopt_refused += 1 if any(st != "ok" and out.get("kinds", {}).get(n) == "adopt" for n, (st, _d) in out["outcomes"].items()) else 0
             why = oracle(out)
             if why:
                 cls = ("referenced-file-deleted" if why.startswith("files referenced") else "table-unreadable" if why.startswith("table unreadable")
@@ -789,6 +790,7 @@ def run(ctx) -> None:
     ctx.stats["schedules"] = total
     ctx.stats["runs_within_proviso"] = judged
     ctx.stats["runs_in_which_a_collection_gave_up"] = gc_gave_up     # GarbageCollectionAborted (pointer moved under it): fail closed
+    ctx.stats["runs_in_which_an_adoption_was_refused"] = adopt_refused     # append_files: collection in progress / orphan already collected
     ctx.stats["runs_with_a_transaction_beyond_the_abandonment_window"] = abandoned      # not judged by the oracle; traced against the model
     try:
         vals = coqbuild.coq_eval(REQ, exprs, chunk=60)
